@@ -241,6 +241,24 @@ def eval_kernel_py(info: dict, args: list, modglobals: dict | None = None):
     raise ValueError(info["kind"])
 
 
+def _approx_equal(a: str, b: str, rel: float = 1e-12) -> bool:
+    """Token-wise comparison that tolerates float64 rounding of non-dyadic quotients on the
+    Python side (the Lean side is exact)."""
+    ta, tb = a.split(), b.split()
+    if len(ta) != len(tb):
+        return False
+    for x, y in zip(ta, tb):
+        if x == y:
+            continue
+        try:
+            fx, fy = Fraction(x), Fraction(y)
+        except (ValueError, ZeroDivisionError):
+            return False
+        if abs(fx - fy) > rel * max(1, abs(fx), abs(fy)):
+            return False
+    return True
+
+
 def kernel_line(name: str, args: list) -> str:
     return "k:" + name + "".join(" " + (("1" if a else "0") if isinstance(a, bool) else rat_str(a))
                                  for a in args)
@@ -286,7 +304,7 @@ def k1_selfcheck(report: dict, grids: dict[str, list[list]], modglobals: dict[st
     got = driver(lines)
     bad = []
     for (name, args), e, g, ln in zip(meta, expect, got, lines):
-        if e != g:
+        if e != g and not _approx_equal(e, g):
             bad.append({"kernel": name, "args": [str(a) for a in args], "python": e, "lean": g,
                         "line": ln})
     return len(lines), bad
